@@ -27,7 +27,7 @@ pub enum L {
     LongHeader(u16),
 }
 
-pub const HEADER_KEYS: &[&str] = &["compiler", "compiler_version", "min_api", "pg_map_id", "min_apix", "Compiler"];
+pub const HEADER_KEYS: &[&str] = &["compiler", "compiler_version", "min_api", "pg_map_id", "min_apix", "Compiler", "COMPILER_VERSION", "Min_Api", "compiler-version", "minapi", "compiler_versio", "xcompiler"];
 /// (text, parsed as u32)
 pub const HEADER_VALUES: &[(&str, Option<u32>)] = &[
     ("", None), // index 0 = header without value at all
@@ -453,6 +453,26 @@ pub fn long_cases() -> Vec<MetaCase> {
     // size windows: the only line-mapped method (and the last metadata header) sits behind 17 / 33 / 65 MiB
     for (mib, crlf) in [(17u32, false), (33, false), (33, true), (65, false)] {
         v.push(MetaCase { segs: vec![Seg { line: L::Class, reps: 1 }, Seg { line: L::LongHeader(1024), reps: mib }, Seg { line: L::Header(2, 2), reps: 1 }, Seg { line: L::MethodMapped, reps: 1 }], final_eol: false, crlf });
+    }
+    // large files whose metadata headers lie far apart (more than 16 / 32 MiB): valued first and valueless /
+    // malformed / look-alike last, and the other way round; the filler is a few hundred 64 KiB lines
+    for (k, early, late) in [(0u8, 1u8, 0u8), (1, 3, 0), (2, 2, 4), (2, 2, 5), (2, 9, 0), (0, 0, 10), (2, 4, 9), (1, 0, 3)] {
+        for (filler, crlf) in [(280u32, false), (530, true)] {
+            v.push(MetaCase {
+                segs: vec![
+                    Seg { line: L::Class, reps: 1 },
+                    Seg { line: L::Header(k, early), reps: 1 },
+                    Seg { line: L::LongHeader(64), reps: filler / 2 },
+                    Seg { line: L::MethodUnmapped(2), reps: 3 },
+                    Seg { line: L::LongNoise(64), reps: filler / 2 },
+                    Seg { line: L::Header(k, late), reps: 1 },
+                    Seg { line: L::Header(5 + k % 3, 1), reps: 1 },
+                    Seg { line: L::Field, reps: 2 },
+                ],
+                final_eol: k % 2 == 0,
+                crlf,
+            });
+        }
     }
     for n in [65535u32, 65536, 65537, 70000] {
         for neg in [L::MethodUnmapped(0), L::Noise(0), L::Header(3, 1), L::Class] {
